@@ -176,9 +176,14 @@ def mutate(rng, s):
 TOKENS = ["-", "+", "--", "+-", "1", "2", "10", "\u00b9", "\u00b2", "\u2460", "\u0661", ":", "a", "b", " ", "\\ ", "\t", "\n", "\r",
           "\u00a0", "\u2003", "\u3000", "max", "min", "parent", "has_child", "name", "unique", "distinct", "MAX", "Max",
           "(", ")", "()", "(a)", "!", "=", "==", "!=", "=~", "^", "$", "%", ">", "<", ">=", "<=", "*", "**", ".", "&", "'", '"',
-          "/", "\\", ",", "~", "\u0000", "\ufeff", "\u200b", "''", '""', "'()'", "'(x)'", '"[a]"', "'a'", "{", "}", "{0}", "{x}"]
+          "/", "\\", ",", "~", "\u0000", "\ufeff", "\u200b", "''", '""', "'()'", "'(x)'", '"[a]"', "'a'", "{", "}", "{0}", "{x}",
+          # escaped quotes (the backslash is dropped from the escaped form, leaving an unbalanced quote in the segment),
+          # and every symbol str() may choose as a RegEx delimiter
+          "\\'", '\\"', "it\\'s", '5\\" nail', "#", "@", "_", ";", "/|#@_;,~!", "[/|#@_;,~!]", "/|#@_;,~", "|#@_;,~!"]
 TEMPLATES = ["[%s]", "a[%s]", "/a[%s]/b", "a.b[%s].c", "[%s][%s]", "(%s)", "(a)+(%s)", "[a%s]", "[.%s]", "%s", "a.%s", "/%s/b",
-             "[!%s]", "&%s", "[&%s]", "[%s:%s]", "[a=%s]", "[a=%s][b=%s]", "(a)+%s", "(a)-%s", "[name()%s", "/h[has_child(k)%s]"]
+             "[!%s]", "&%s", "[&%s]", "[%s:%s]", "[a=%s]", "[a=%s][b=%s]", "(a)+%s", "(a)-%s", "[name()%s", "/h[has_child(k)%s]",
+             "[has_child(%s)]", "/h[max(%s)]", "[!min(%s)]", "a[parent(%s)]", "[unique(%s)][name(%s)]",
+             "[a =~ :%s:]", "[a=~%%%s%%]", "[.=~ =%s=]", "[a !=~ x%sx]", "k.*%s*x*", "[.=~/%s/]"]
 
 
 def token_string(rng):
